@@ -176,7 +176,7 @@ func TestC04(t *testing.T) {
 	if shard == 0 {
 		c.rec.F.Exhaustive = append(c.rec.F.Exhaustive, "base x (temporal + absent) (73,629 vectors) x applicable decoders")
 	}
-	c.rapidStage("rapid", pick(20000, 1000000), func(rt *rapid.T) {
+	c.rapidStage("rapid", pick(64000, 1000000), func(rt *rapid.T) {
 		lv := gen.Level().Draw(rt, "decoder")
 		vec := gen.ValidV2(lv).Draw(rt, "vector")
 		cs := scoreCase2{Level: int(lv), NilRecv: rapid.Bool().Draw(rt, "nilrecv"), Input: vec.String()}
